@@ -176,6 +176,15 @@ func noargTemplate(r *hx.Rand) (*lang.Node, map[string]bool) {
 		inner = lang.C(lang.L(nil, lang.C(lang.S("add"), lang.I(r.Intn(5)), lang.C(lang.L(nil, lang.I(r.Intn(5)))))))
 	}
 	body := lang.C(lang.S("pair"), inner, lang.I(r.Intn(9)))
+	if r.Chance(1, 5) { // a nullary lambda whose body is a parameter, called: ((-> g)) 5 6
+		feat["nullary-in-function-position"] = true
+		g := r.Pick([]string{"g", "sub", "h"})
+		if g == "sub" {
+			feat["shadow-global"] = true
+		}
+		app := lang.C(lang.C(lang.L(nil, lang.S(g))), lang.I(r.Intn(9)), lang.I(r.Intn(9)))
+		return lang.C(lang.S("call1"), lang.L([]string{g}, lang.C(lang.S("pair"), app, lang.I(1))), lang.S(r.Pick([]string{"sub", "add", "div"}))), feat
+	}
 	p := r.Pick([]string{f, "x", "x"})
 	if p == f {
 		feat["shadow-global"] = true
@@ -288,7 +297,7 @@ func main() {
 		Name: "c22",
 		Rule: "1 in 10: calls without arguments ((f), ((f)), ({-> e})) inside lambdas that may shadow f; 3 in 10: a lambda over one call of a global function with its parameters used in order / reordered / repeated / omitted / next to literals, lambdas or calls, bare or applied or nested under a shadowing lambda; otherwise programs from the C21 generator extended with strings, query literals and the query builders (and or typed keyed tagged), 1 in 6 with an ill-typing edit. non-trivial = Simplify returned a tree different from its argument; distinct = by hash of the program text",
 		Quick:    4000,
-		Thorough: 150000,
+		Thorough: 60000,
 		Corpus: func(c *hx.Ctx) {
 			for i, p := range corpus() {
 				runProgram(c, fmt.Sprintf("corpus %d", i), p, map[string]bool{"lambda": true}, "")
